@@ -31,12 +31,21 @@ func dynFieldName(u *ssa.UnOp) string {
 	if al, ok := u.X.(*ssa.Alloc); ok && al.Comment != "" {
 		return al.Comment // a function value held in a (captured) local variable
 	}
+	if fv, ok := u.X.(*ssa.FreeVar); ok && u.Op == token.MUL {
+		return fv.Name() // a function value held in a variable captured by reference
+	}
 	fa, ok := u.X.(*ssa.FieldAddr)
 	if !ok {
 		return ""
 	}
 	var base string
 	switch p := fa.X.(type) {
+	case *ssa.FieldAddr: // a function-typed field of an embedded struct value: ts.params.Setup
+		inner := dynFieldName(&ssa.UnOp{X: p})
+		if inner == "" {
+			return ""
+		}
+		base = inner
 	case *ssa.Parameter:
 		base = p.Name()
 	case *ssa.FreeVar:
@@ -44,6 +53,8 @@ func dynFieldName(u *ssa.UnOp) string {
 	case *ssa.UnOp: // a captured variable holding the pointer: *srv
 		if fv, ok := p.X.(*ssa.FreeVar); ok && p.Op == token.MUL {
 			base = fv.Name()
+		} else if al, ok := p.X.(*ssa.Alloc); ok && p.Op == token.MUL && al.Comment != "" {
+			base = al.Comment // a parameter or local spilled to a cell because a closure captures it
 		} else {
 			return ""
 		}
@@ -64,6 +75,10 @@ func (g *Gen) calleeContract(cc *ssa.CallCommon) *Contract {
 	case *ssa.MakeClosure:
 		return g.world.contractFor(f.Fn.(*ssa.Function))
 	case *ssa.Parameter:
+		if g.c != nil && g.c.DynCallee != nil {
+			return g.c.DynCallee[f.Name()]
+		}
+	case *ssa.FreeVar: // a function value captured by value
 		if g.c != nil && g.c.DynCallee != nil {
 			return g.c.DynCallee[f.Name()]
 		}
@@ -125,9 +140,24 @@ func (g *Gen) run() (err error) {
 		n := fmt.Sprintf("fv%d_%s", i, san(fv.Name()))
 		g.emit("(declare-const " + n + " " + sort + ")")
 		g.emit("(assert " + g.wf(n, fv.Type(), alloc0) + ")")
+		if _, isPtr := fv.Type().Underlying().(*types.Pointer); isPtr {
+			g.emit("(assert (> " + n + " 0))") // the address of a captured variable is never nil
+		}
 		g.vals[fv] = Val{S: n, Sort: sort, G: fv.Type()}
 		g.params[fv.Name()] = g.lazyCell(Val{S: n, Sort: sort, G: fv.Type()})
 		g.paramSMT = append(g.paramSMT, n)
+	}
+	{
+		// captured variables are distinct variables
+		var addrs []string
+		for i, fv := range fn.FreeVars {
+			if _, isPtr := fv.Type().Underlying().(*types.Pointer); isPtr {
+				addrs = append(addrs, fmt.Sprintf("fv%d_%s", i, san(fv.Name())))
+			}
+		}
+		if len(addrs) > 1 {
+			g.emit("(assert (distinct " + strings.Join(addrs, " ") + "))")
+		}
 	}
 	// ghost names bound to results of calls through function-typed parameters
 	if g.c != nil {
@@ -496,6 +526,7 @@ func (g *Gen) enterLoop(li *loopInfo) *State {
 	}
 	// state at the header: merge of entries, then havoc what the loop changes
 	st := g.mergeNoPhi(b, entries)
+	pre := st.clone()
 	g.fnFresh = false
 	comps, dirty, all, locals := g.loopMods(li)
 	if all {
@@ -519,6 +550,20 @@ func (g *Gen) enterLoop(li *loopInfo) *State {
 		}
 		if comps["alloc"] {
 			g.assume(st, "(>= "+g.heapGet(st, "alloc")+" "+oldAlloc+")")
+		}
+		// arrays of composite literals that never escape and are not stored to inside the
+		// loop keep their contents whatever else the loop writes
+		for _, a := range g.privateArrays(li) {
+			v, ok := g.vals[a]
+			if !ok {
+				continue
+			}
+			at := a.Type().(*types.Pointer).Elem().Underlying().(*types.Array)
+			c := g.m.compSliceHeap(g.m.sortOf(at.Elem()))
+			if !comps[c] {
+				continue
+			}
+			g.emit("(assert " + eq(sel(g.heapGet(st, c), v.S), sel(g.heapGet(pre, c), v.S)) + ")")
 		}
 	}
 	for a := range locals {
@@ -785,6 +830,10 @@ func (g *Gen) instr(in ssa.Instruction, st *State) {
 			g.setVal(x, "(- (- "+g.val(x.X).S+") 1)", x.Type())
 		case token.ARROW:
 			g.setFresh(x, st)
+			// ghost: the channels this goroutine has received from (history; declared in specs as gRecv)
+			if _, ok := g.m.comps["gRecv"]; ok {
+				g.heapSet(st, "gRecv", "(store "+g.heapGet(st, "gRecv")+" "+g.val(x.X).S+" true)")
+			}
 		default:
 			g.unsup("unary %s", x.Op)
 		}
@@ -920,6 +969,13 @@ func (g *Gen) instr(in ssa.Instruction, st *State) {
 		}
 		ref := g.newRef(st)
 		g.vals[x] = Val{S: ref, Sort: "Int", G: x.Type(), Fn: x.Fn.(*ssa.Function), Clo: clo}
+		// closure facts readable from contracts: isClosure(v, "name"), capturedInt(v, k)
+		g.assume(st, eq("(clofn "+ref+")", fmt.Sprint(fnID(x.Fn.Name()))))
+		for i, c := range clo {
+			if c.Sort == "Int" {
+				g.assume(st, eq(fmt.Sprintf("(clovar %s %d)", ref, i), c.S))
+			}
+		}
 	case *ssa.Defer:
 		var args []Val
 		for _, a := range x.Call.Args {
@@ -1226,4 +1282,77 @@ func (g *Gen) narrow(v string, from, to *types.Basic) string {
 
 func strconvUnquote(s string) (string, error) {
 	return unquoteGo(s)
+}
+
+// privateArrays: array-typed allocations of this function (composite literals) whose address
+// is used only for element stores outside the loop, element loads, and slicing that is itself
+// used only for element loads and len/cap.
+func (g *Gen) privateArrays(li *loopInfo) []*ssa.Alloc {
+	var out []*ssa.Alloc
+	loadsOnly := func(v ssa.Value, allowStoreOutside bool) bool {
+		for _, r := range *v.Referrers() {
+			switch x := r.(type) {
+			case *ssa.DebugRef:
+			case *ssa.IndexAddr:
+				if x.X != v {
+					return false
+				}
+				for _, rr := range *x.Referrers() {
+					switch y := rr.(type) {
+					case *ssa.UnOp:
+					case *ssa.DebugRef:
+					case *ssa.Store:
+						if y.Addr != x || !allowStoreOutside || li.blocks[y.Block()] {
+							return false
+						}
+					default:
+						return false
+					}
+				}
+			case *ssa.Call:
+				b, ok := x.Call.Value.(*ssa.Builtin)
+				if !ok || (b.Name() != "len" && b.Name() != "cap") {
+					return false
+				}
+			case *ssa.Slice:
+				if !allowStoreOutside || x.X != v {
+					return false // only the allocation itself may be sliced (checked by the caller)
+				}
+			default:
+				return false
+			}
+		}
+		return true
+	}
+	for _, b := range g.fn.Blocks {
+		if li.blocks[b] {
+			continue
+		}
+		for _, in := range b.Instrs {
+			a, ok := in.(*ssa.Alloc)
+			if !ok {
+				continue
+			}
+			if _, isArr := a.Type().(*types.Pointer).Elem().Underlying().(*types.Array); !isArr {
+				continue
+			}
+			good := true
+			for _, r := range *a.Referrers() {
+				switch x := r.(type) {
+				case *ssa.DebugRef:
+				case *ssa.IndexAddr:
+				case *ssa.Slice:
+					if x.X != a || !loadsOnly(x, false) {
+						good = false
+					}
+				default:
+					good = false
+				}
+			}
+			if good && loadsOnly(a, true) {
+				out = append(out, a)
+			}
+		}
+	}
+	return out
 }
